@@ -204,6 +204,21 @@ def climb_family(tier):
                                         ("kw", "name", (), False))))
             plist.append(rp(base + (("kw", "parent", (), False),)))
             plist.append(rp(base + (("kw", "name", (), False),)))
+            # climbs in two steps start from where the first one arrived
+            # (also beyond the root: refused), and name() after them
+            for a in range(0, len(pos) + 1):
+                for b in range(1, len(pos) + 2 - a):
+                    two = base + (("kw", "parent", (str(a),), False),
+                                  ("kw", "parent", (str(b),), False))
+                    plist.append(rp(two))
+                    plist.append(rp(two + (("kw", "name", (), False),)))
+            if len(pos) >= 1:
+                # up, down the same way again, up once more
+                last = ("key", str(pos[-1])) if not isinstance(
+                    pos[-1], int) else ("idx", pos[-1])
+                plist.append(rp(base + (("kw", "parent", (), False), last,
+                                        ("kw", "parent", (), False),
+                                        ("kw", "name", (), False))))
         if corpus.size(spec) <= 4:
             for seg in voc:
                 for kw in (("kw", "parent", (), False),
